@@ -20,7 +20,7 @@ class Case:
     """one lmplz run: corpus bytes + options"""
 
     def __init__(self, data, order, prune=None, limit=None, interp=True, fallback=None, skip=False, renumber=False,
-                 intermediate=False, tag="", mem=None, stale=None, io=None):
+                 intermediate=False, tag="", mem=None, stale=None, io=None, stdin=False):
         self.data, self.order, self.prune, self.limit = data, order, prune, limit
         self.interp, self.fallback, self.skip, self.renumber, self.intermediate, self.tag = interp, fallback, skip, renumber, intermediate, tag
         # mem: memory / block configuration arguments (None = -S 20M --vocab_estimate 1000: everything in one block, no merging)
@@ -30,23 +30,26 @@ class Case:
         # probability, fewer bytes than requested (down to 1) or is interrupted (EINTR) -- what a pipe, a socket or a stopped
         # and continued process legitimately does; pipe = the ARPA goes to standard output (a pipe) instead of a file
         self.io = io
+        # stdin: the corpus is not given with --text but arrives on standard input (a pipe; lmplz's default): the reader's
+        # windows are then the individual read() results, which the io storm makes end anywhere
+        self.stdin = stdin
 
     def to_json(self):
         return {"corpus_hex": self.data.hex(), "order": self.order, "prune": self.prune,
                 "limit": None if self.limit is None else [w.hex() for w in self.limit], "interp": self.interp,
                 "fallback": self.fallback, "skip": self.skip, "renumber": self.renumber, "intermediate": self.intermediate,
-                "mem": self.mem, "stale": self.stale, "io": self.io, "tag": self.tag, "corpus_preview": self.data[:300].decode("utf-8", "replace")}
+                "mem": self.mem, "stale": self.stale, "io": self.io, "stdin": self.stdin, "tag": self.tag, "corpus_preview": self.data[:300].decode("utf-8", "replace")}
 
     @staticmethod
     def from_json(o):
         return Case(bytes.fromhex(o["corpus_hex"]), o["order"], o.get("prune"),
                     None if o.get("limit") is None else [bytes.fromhex(w) for w in o["limit"]], o.get("interp", True),
                     o.get("fallback"), o.get("skip", False), o.get("renumber", False), o.get("intermediate", False), o.get("tag", ""),
-                    o.get("mem"), o.get("stale"), o.get("io"))
+                    o.get("mem"), o.get("stale"), o.get("io"), o.get("stdin", False))
 
     def argv(self, text, arpa, scratch, limit_file=None, inter_base=None):
         a = ["-o", str(self.order)] + (list(self.mem) if self.mem else ["-S", "20M", "--vocab_estimate", "1000"]) + \
-            ["-T", scratch.rstrip("/") + "/", "--text", text, "--arpa", arpa]
+            ["-T", scratch.rstrip("/") + "/"] + ([] if self.stdin else ["--text", text]) + ["--arpa", arpa]
         if self.prune is not None:
             a += ["--prune"] + [str(x) for x in self.prune]
         if self.limit is not None:
@@ -333,7 +336,8 @@ def gen_case(rng, big=False):
     return Case(data, order, prune, limit, interp=not rng.chance(1, 4), fallback=fallback, skip=skip,
                 renumber=rng.chance(1, 5), intermediate=rng.chance(1, 8), tag="gen", mem=gen_mem(rng, order, len(vocab)),
                 stale=rng.choice([None, None, None, 1, 300, 100000]),
-                io=[rng.below(1 << 30), rng.choice([100, 300, 600, 900]), rng.chance(1, 2)] if rng.chance(1, 5) else None)
+                io=[rng.below(1 << 30), rng.choice([100, 300, 600, 900]), rng.chance(1, 2)] if rng.chance(1, 4) else None,
+                stdin=rng.chance(1, 3))
 
 
 # ---------------------------------------------------------------------------------------------
@@ -465,7 +469,7 @@ def build_shim():
     return so
 
 
-def run_lmplz(lmplz, case, scratch, idx=0, keep=False):
+def run_lmplz(lmplz, case, scratch, idx=0, keep=False, tmo=30):
     base = os.path.join(scratch, "k%d" % idx)
     text, arpa = base + ".txt", base + ".arpa"
     open(text, "wb").write(case.data)
@@ -482,11 +486,11 @@ def run_lmplz(lmplz, case, scratch, idx=0, keep=False):
             open(t, "wb").write(junk)
     env = None
     to_pipe = bool(case.io and case.io[2])
-    cmd = ["timeout", "60", lmplz] + case.argv(text, "/dev/stdout" if to_pipe else arpa, scratch, limit_file, inter)
+    cmd = ["timeout", "-s", "KILL", str(tmo), lmplz] + case.argv(text, "/dev/stdout" if to_pipe else arpa, scratch, limit_file, inter)
     if case.io:
         env = {"LD_PRELOAD": build_shim(), "IO_SHIM_STORM": "%d:%d" % (case.io[0], case.io[1])}
     if to_pipe:
-        rc, outb, errb = vlib.sh(cmd, timeout=90, env=env, binary=True)
+        rc, outb, errb = vlib.sh(cmd, timeout=tmo + 30, env=env, binary=True, input=case.data if case.stdin else None)
         err = errb.decode("utf-8", "replace")
         out = ""
         if rc == 0:
@@ -494,16 +498,17 @@ def run_lmplz(lmplz, case, scratch, idx=0, keep=False):
         elif os.path.exists(arpa):
             os.remove(arpa)
     else:
-        rc, out, err = vlib.sh(cmd, timeout=90, env=env)
+        rc, out, err = vlib.sh(cmd, timeout=tmo + 30, env=env, input=case.data if case.stdin else None)
     if rc in (126, 127) and "failed to run command" in err:
         # the binary is being relinked by a concurrent build of the repository: not an observation about lmplz
         import time
         time.sleep(3)
-        rc, out, err = vlib.sh(cmd, timeout=90, env=env)
+        rc, out, err = vlib.sh(cmd, timeout=tmo + 30, env=env)
         if rc in (126, 127) and "failed to run command" in err:
             raise vlib.InfraError("cannot execute %s: %s" % (lmplz, err.strip()[-200:]))
     r = Run()
     r.rc, r.err, r.cmd = rc, err, cmd
+    r.hung = rc in (124, 137, -9)        # killed by `timeout`: lmplz did not terminate
     r.refused = None
     r.stats = []
     if rc != 0:
